@@ -131,4 +131,76 @@ REGISTRY: dict[str, dict] = {
         assumptions=["that the upb C parser and CPython themselves neither crash nor allocate by declared length is runtime "
                      "behaviour: observed by the watchdog, not proved (claimed partial)"],
     ),
+    "C03": dict(
+        modules=["C03", "C06"],
+        theorems=[T + "C03_triples", T + "C03_quads", T + "C03_graphs", T + "C06_rows_independent_of_flow"],
+        rule="SER (generic integration: stream_frames with sink/generator input, flat_/grouped_stream_to_file; namespace "
+             "declarations on/off; 3 stream classes; presets down to 8/1/1 and 8/0/0; frame sizes 1..250; delimited and not) "
+             "byte-exact against the model, then the REAL bytes are decoded by the Lean wire parser + Spec.runRows (no pyjelly, "
+             "no rdf_pb2): accepted? denotation == input (namespaces first, then statements)? Non-trivial = accepted "
+             "configuration with >= 2 statements.",
+    ),
+    "C07": dict(
+        modules=["C07", "C06"],
+        theorems=[T + "C07_frames_eq_rows", T + "C07_repartition", T + "C07_grouped_one_per_frame",
+                  T + "C07_grouped_concat_eq_flat", T + "C07_one_frame_per_nonempty_sink", T + "C06_rows_independent_of_flow"],
+        rule="PARSE on reference-encoder row sequences re-cut into frames at EVERY single position and at random multi-cuts "
+             "with empty frames and metadata: flat(recut) == flat(one frame); grouped: one sink per frame, concatenation == "
+             "flat, frame_metadata seen while building sink i == metadata of frame i; grouped serialization with grouped "
+             "logical types over 1..5 sinks sharing one stream: frames written == non-empty sinks and round trip. "
+             "Non-trivial = row sequence with > 2 rows.",
+        assumptions=["the ContextVar carrying frame metadata is not modelled in Lean; that part of (b) is oracle-only"],
+    ),
+    "C01": dict(
+        modules=["C01", "C03", "C04", "C06", "C07"],
+        theorems=[T + "C01_triples_frames", T + "C01_quads_frames", T + "C01_graphs_frames", T + "C01_parseFrames_is_parseCore",
+                  T + "C03_triples", T + "C03_quads", T + "C03_graphs", T + "C04_decoder_refines_spec", T + "C07_frames_eq_rows",
+                  T + "C06_nothing_left_in_flow", T + "C06_rows_independent_of_flow"],
+        rule="SER+PARSE: generic serializer cases within the sizing hypothesis (each statement fits the tables), all entry "
+             "points (stream_frames with sink/generator, flat_/grouped_stream_to_file), 3 classes, presets down to 8/0/0 and "
+             "8/1/1, frame sizes 1..250, delimited and non-delimited; real parse_jelly_flat of the real bytes == input sequence "
+             "(order, duplicates, xsd:string ≡ plain); bytes and parse results also compared with the model. The generator's "
+             "sizing predicate is cross-checked against the Lean predicate stmtFits. Non-trivial = >= 2 statements.",
+    ),
+    "C19": dict(
+        claimed=False,
+        modules=["C03"],
+        theorems=[T + "C03_triples"],
+        rule="SPEC audit on real bytes: redundant-entry, missed-repeat, missed-zero, split-graph counters must all be 0.",
+    ),
+    "C02": dict(
+        modules=["C03", "C04", "C15", "C07"],
+        theorems=[T + "C03_triples", T + "C03_quads", T + "C03_graphs", T + "C04_decoder_refines_spec",
+                  T + "C02_graphs_loops_agree", T + "C15_serializers_agree_triples", T + "C15_serializers_agree_quads",
+                  T + "C15_integrations_agree_rows", T + "C07_frames_eq_rows"],
+        rule="rdflib Graph (TRIPLES) / Dataset (QUADS or GRAPHS physical type) of RDF 1.1 data, presets down to 8/1/1, frame "
+             "sizes 1..250, flat and grouped logical types, delimited and (flat) non-delimited; serialized through the stream "
+             "functions (byte-exact against the model fed with rdflib's observed iteration order) and through "
+             "Graph.serialize(format='jelly', options=, stream=); read back with parse_jelly_to_graph, Graph.parse and the "
+             "plugin; compared as sets of statements (xsd:string ≡ plain). Non-trivial = >= 2 statements.",
+        assumptions=["rdflib is modelled as an abstract term algebra (URIRef/BNode/Literal constructors, ==, Graph/Dataset "
+                     "iteration, plugin dispatch); its iteration order is observed, not predicted"],
+    ),
+    "C14": dict(
+        modules=["C15", "C03"],
+        theorems=[T + "C14_no_namespace_rows_when_off", T + "C14_version_two_iff_enabled", T + "C14_no_bindings_same_rows",
+                  T + "C14_namespace_row_decoding", T + "namespace_run"],
+        rule="generic sinks with 0..5 bindings (empty prefix, IRIs with and without separators, non-ASCII, re-bound prefixes) x "
+             "statements x 3 stream classes x presets down to 8/1/1 (declarations evict statement entries): Prefix events == "
+             "bindings in order; sink.namespaces after parse; re-serialisation reproduces them; statements identical with the "
+             "option on/off; no namespace row when off (also judged by the Lean referee); rdflib Graph/Dataset bindings incl. "
+             "the 29 defaults. Non-trivial = at least one binding.",
+    ),
+    "C15": dict(
+        modules=["C15", "C07"],
+        theorems=[T + "C15_to_graph_eq_flat", T + "C07_grouped_concat_eq_flat", T + "C15_integrations_agree_row",
+                  T + "C15_integrations_agree_rows", T + "C15_integrations_agree_frames", T + "C15_serializers_agree_triples",
+                  T + "C15_serializers_agree_quads"],
+        rule="the same RDF 1.1 bytes (from the reference encoder and from pyjelly) through all six parse entry points: generic "
+             "flat == grouped concatenated == to_graph; rdflib flat == generic flat term for term; rdflib grouped/to_graph as "
+             "sets; both serializers on corresponding generator input with the same options: byte-identical. Non-trivial = "
+             "every stream / serializer pair with >= 2 statements.",
+        assumptions=["rdflib's term constructors are an injective renaming of the generic terms on RDF 1.1 data (checked by the "
+                     "term-for-term comparison); Literal(lex, normalize=False) keeps lex"],
+    ),
 }
